@@ -236,6 +236,7 @@ def build():
     rules.sig(f, ret="res", world=True)
     rules.r1_logs(f)
     rules.r9_method_to_fn(f, "starts_with", "string_starts_with_char", arg_map={"std::path::": "stdshim::path::"})
+    rules.r9_method_to_fn(f, "ends_with", "string_ends_with_char", arg_map={"std::path::": "stdshim::path::"})
     rules.r13_reroot(f, {"std::path::": "stdshim::path::", "use std::path;": "use stdshim::path;"})
     rules.r8_thread(f, [r"Context::read_cached_next_reference_id\("])
     f.replace_all(r"String::from_str\s*\(", "string_from_str(", "R9", regex=True)
